@@ -104,7 +104,7 @@ def gen_rounds(seed, tier, run):
             out3.append(f"display@f64 {sarr(sh, fs)} {opt(prec)} z{alt}")
         out3.append(f"display@str {sarr(sh, [rng.choice(['ab', 'c d', 'x', '']) for _ in range(n)])} n z{rng.randint(0, 1)}")
         out3.append(f"display@bool {sarr(sh, [rng.choice(['true', 'false']) for _ in range(n)])} n z{rng.randint(0, 1)}")
-    atoms = ["1", "-2", "ab", "x y", "3.5", "", "true", "Z9"]
+    atoms = ["1", "-2", "ab", "x y", "3.5", "", "true", "Z9", " lead", "trail ", " ", "  both  ", "\tt", "a  b"]
     for a, b in itertools.product(atoms, repeat=2):
         out3.append(f"tuple_text {sarr([2], [a, b])}")
         out3.append(f"list_text {sarr([2], [a, b])}")
